@@ -127,7 +127,7 @@ FScenario == LET ps == AllPaints(gprog, 1, FALSE) \o <<>> IN
              [prog |-> gprog, res |-> FRes, wpx |-> Wpx, hpx |-> Hpx,
               paints |-> IF FMode = "prog" THEN [i \in 1..Len(ExpQueue(gprog)) |-> Brief(ExpQueue(gprog)[i])] ELSE <<>>,
               frame |-> Rows(FrameOf(ps)),
-              feat |-> [openfill |-> OpenFill(gprog), left |-> CrossLeft(gprog), top |-> CrossTop(gprog), selfx |-> StrokeSelfX(gprog), posnegopen |-> PosNegOpen(gprog)],
+              feat |-> [openfill |-> OpenFill(gprog), left |-> CrossLeft(gprog), top |-> CrossTop(gprog), selfx |-> StrokeSelfX(gprog), posnegopen |-> PosNegOpen(gprog), grad |-> \E j \in 1..Len(gprog) : gprog[j].fill \in Grads],
               nz |-> IF RuleSensitive(gprog) THEN Rows(FrameOf(AllPaints(gprog, 1, TRUE) \o <<>>)) ELSE <<>>]
 FEmit == ~gdone /\ gdone' = TRUE /\ UNCHANGED <<gprog, vars, mprog, mlang, mtrace>> /\ PrintT("@@" \o ToJson(FScenario))
 FSpec == GInit /\ [][FEmit]_mvars
